@@ -15,6 +15,14 @@ CLAIMED = {
         text="A bytecode verifier over the symbolic post-optimisation code (depth + handler-stack certificate, checked locally) whose soundness over ALL control-flow paths is a Lean theorem (C06_verifier_sound, join agreement, capacity/operand/handler-depth/return clauses); the compiler's stack_effect table is proved equal to the VM's pops/pushes on every instruction ([G] lemma over the regenerated table), encoder lengths and jump formulas are proved to land exactly on the label offsets; the verified verifier is run on every function of the fixture corpus and of generated programs (translation validation), executed depths/handler counts from the interpreter probe are compared with the certificate, and the model encoder is compared byte-for-byte with the real encoder",
         note="Trusted: Lean kernel + standard axioms, translator row for byte_code.rs, hand-written vmEffect/mayRaise (tied to vm/ops.rs by the probe stream, not proved from Rust), compile-dump and probe hooks; C06_full (every accepted program has a certificate) is not proved: the verifier is run instead",
         technique="Lean 4 proof of verifier soundness + generated-table lemmas; verified checker run on all emitted functions; probe and encode correspondence"),
+    "C10": dict(
+        text="Lean theorems over a heap-of-vectors model with forwarding headers: well-formedness of every reachable heap, contents shared through every alias (old or new address) for all mutation histories, identity stable inside the stated envelope and unconditionally for non-relocating objects, the envelope is tight; D7 witness; regenerated native/scan tables proved equal to the model's; exact model and identity Spec both compared with the real VM on generated mutation histories with aliases in six kinds of location",
+        note="Trusted: Lean kernel + standard axioms, translator rows, hand-written machine (checked by the listfwd stream), harness; C10_full is false on the pinned code (D7, known finding)",
+        technique="Lean 4 invariant/refinement proofs over heap histories + generated tables + model/Spec/implementation three-way stream"),
+    "C14": dict(
+        text="Lean theorems over all 2^64 bit patterns with constants and method bodies regenerated from value.rs: round-trip, injectivity, class disjointness, kind/test agreement, arithmetic NaNs are numbers, equality agreement outside the exactly stated excluded set (and real difference on it), hash consistency; witnesses for D8; value engine in both builds vs model and Spec on boundary patterns; generated programs and the fixture corpus diffed across both builds",
+        note="Trusted: Lean kernel + standard axioms, gen_nanbox translator (typed expression translation of value.rs), harness built in both feature configurations; IEEE semantics of f64 shared by Rust and Lean Float for the spec cross-check",
+        technique="Lean 4 proofs over BitVec/Nat bit patterns with generated definitions + two-build differential streams"),
     "C12": dict(
         text="Lean theorem C12_preserves: for every instruction semantics satisfying the local laws, every well-delimited stream, every entry/label, all states and fuel, optimised = original; label-restart and line theorems; rule table proved equal to the one regenerated from peephole.rs; model tied to the real peephole_optimize on exhaustive windows, random streams and every fixture function; implementation output judged by an executable free-semantics Spec",
         note="Trusted: Lean kernel + the three standard axioms, translator rows for byte_code.rs/peephole.rs, hand-written optimiser model (checked against peephole_optimize through the cfg hook), free semantics as Spec; the local laws are proved for the free semantics, not for ops.rs",
